@@ -660,10 +660,25 @@ func c17Renderer(c *run.Ctx, idx uint64) {
 			z.SetLOD(7, 8)
 			z.SetCSel(9)
 		}
+		zp := &z
+		var handedOn render.Renderer
+		if r.Chance(1, 4) {
+			// The used Renderer is handed on by value (a field of a struct that is
+			// copied, an element of a slice that grew): the copy is an object of
+			// its own, whatever the original goes on to do.
+			c.Count("used_renderer_handed_on_by_value", 1)
+			handedOn = z
+			zp = &handedOn
+			z.Reset(ivg.DefaultViewBox, ivg.DefaultPalette)
+			z.SetCReg(0, false, ivg.RGBAColor(color.RGBA{0x33, 0x22, 0x11, 0x44}))
+			z.StartPath(0, 0, 0)
+			z.AbsLineTo(1, 1)
+			z.ClosePathEndPath()
+		}
 		rz.ResetLog()
-		errR = applyB(&z)
+		errR = applyB(zp)
 		reused = rz.Calls
-		selR = [2]uint8{z.CSel(), z.NSel()}
+		selR = [2]uint8{zp.CSel(), zp.NSel()}
 		rzF := &rec.Raster{Probes: probes}
 		var zf render.Renderer
 		zf.SetRasterizer(rzF, rect)
